@@ -117,4 +117,25 @@ def anyReferenced (w : Wrapper) : Bool :=
   w.tail.headRefs > 0 || w.tail.appended.any (·.userRefs > 0) ||
   (w.isTag && (w.data.headRefs > 0 || w.data.appended.any (·.userRefs > 0)))
 
+/-! ## the lock: `with _wrapper_cache:` blocks, possibly nested -/
+
+/-- a program's use of the lock: entering and leaving `with _wrapper_cache:` blocks -/
+inductive LockOp
+  | enter
+  | exit
+deriving Repr, DecidableEq
+
+/-- the counter after a sequence of `__enter__`/`__exit__` calls, for given effects of the two methods -/
+def lockCount (enterΔ exitΔ : Int) : Int → List LockOp → Int
+  | c, [] => c
+  | c, .enter :: ops => lockCount enterΔ exitΔ (c + enterΔ) ops
+  | c, .exit :: ops => lockCount enterΔ exitΔ (c + exitΔ) ops
+
+/-- the number of `with` blocks that are open after the sequence (`none`: an exit without a block) -/
+def openBlocks : Nat → List LockOp → Option Nat
+  | d, [] => some d
+  | d, .enter :: ops => openBlocks (d + 1) ops
+  | 0, .exit :: _ => none
+  | d + 1, .exit :: ops => openBlocks d ops
+
 end Delb.Gc
